@@ -7,7 +7,7 @@ from fractions import Fraction
 from ..cfg import CFG
 from ..counting import explore, path_to
 from ..loops import ENV_LOOPS, VECTOR_LOOPS, find_env_loop, dotted
-from ..nf import NF, Scope, Poly
+from ..nf import NF, Scope, Poly, parse_expr
 from ..repo import Repo, loc, short, AnalysisError, param_names
 from ..resolve import Resolver
 
@@ -615,6 +615,156 @@ def r5_budget_symbolic(ck, repo, nf: NF, qual: str, budget: str):
               _compress(cfg, [k[0] for k in path_to(parent, key)]))
 
 
+def r5_budget_exact(ck, repo, nf: NF, qual: str, budget: str):
+    """Between one single-task call and the next scheduling decision the counters move by exactly the executed steps.
+
+    Abstract interpretation of the segment  S (train_st call) -> {next S, scheduler loop header, return}: the state is the
+    environment of the *relevant* locals (those flowing into the global counter / per-task totals) as polynomials over
+    G0 (counter value handed to train_st), Q (sum of the recorded episode lengths) and the budget, plus the accumulated
+    per-task increment dT and which side of the early-termination test was taken.  Irrelevant branches do not split states.
+    Obligations at the segment ends:  normal side: dG == Q and dT == Q;  early side (train_st ran into the budget, so it
+    executed budget - G0 steps): G0 + dT == budget and, when the scheduler continues or returns the counter, G == budget."""
+    from .. import sympath
+    fn = repo.func(qual)
+    mi = fn._module
+    cfg = nf.cfg_of(fn)
+    G = "global_step"
+    T = "training_steps"
+    site = qual
+    hdrs = [n for n in cfg.nodes if n.kind == "test" and isinstance(n.ast, ast.While) and not cfg.control_deps(n.id)]
+    ck.need(len(hdrs) == 1, f"{site}: expected one top-level while loop")
+    H = hdrs[0]
+    S = [n for n in cfg.nodes if n.kind == "stmt" and n.ast is not None and any(isinstance(c, ast.Call) and isinstance(c.func, ast.Name) and c.func.id == "train_st" for c in ast.walk(n.ast))]
+    ck.need(len(S) == 1, f"{site}: expected exactly one train_st call")
+    S = S[0]
+
+    def is_T(t):
+        return isinstance(t, ast.Subscript) and dotted(t.value) == T
+
+    # relevant locals: everything that flows into G or T
+    rel = {G}
+    changed = True
+    stmts = [n for n in cfg.nodes if n.kind == "stmt" and isinstance(n.ast, (ast.Assign, ast.AugAssign))]
+    while changed:
+        changed = False
+        for n in stmts:
+            tg = n.ast.targets[0] if isinstance(n.ast, ast.Assign) else n.ast.target
+            if (isinstance(tg, ast.Name) and tg.id in rel) or is_T(tg):
+                for x in ast.walk(n.ast.value):
+                    if isinstance(x, ast.Name) and x.id not in rel and any(isinstance(m.ast, (ast.Assign, ast.AugAssign)) and isinstance((m.ast.targets[0] if isinstance(m.ast, ast.Assign) else m.ast.target), ast.Name)
+                                                                            and (m.ast.targets[0] if isinstance(m.ast, ast.Assign) else m.ast.target).id == x.id and H.id in cfg.enclosing_loops(m.id) for m in stmts):
+                        rel.add(x.id)
+                        changed = True
+    # the early-termination test
+    early_tests = {}
+    for n in cfg.nodes:
+        if n.kind == "test" and isinstance(n.ast, ast.If) and isinstance(n.ast.test, ast.Compare) and len(n.ast.test.ops) == 1 and isinstance(n.ast.test.ops[0], (ast.NotEq, ast.Eq, ast.Lt)):
+            txt = ast.unparse(n.ast.test)
+            if "return_queue" in txt and "scheduling_interval" in txt and "len(" in txt:
+                early_tests[n.id] = not isinstance(n.ast.test.ops[0], ast.Eq)   # branch label that means `ran into the budget`
+    ck.need(len(early_tests) == 1, f"{site}: cannot identify the early-termination test (len(return_queue) vs scheduling_interval); found {len(early_tests)}")
+    POLYS = _PolyTable()
+    g0 = Poly.atom("G0", {"G0"}, {"G0"})
+    zero = Poly({})
+    B = Poly.atom(budget, {budget}, {budget})
+
+    def pack(env, dT, early):
+        return (tuple(sorted((k, POLYS.put(v)) for k, v in env.items())), POLYS.put(dT), early)
+
+    def unpack(st):
+        return {k: POLYS.get(v) for k, v in st[0]}, POLYS.get(st[1]), st[2]
+    stops = {S.id, H.id, cfg.exit} | {n.id for n in cfg.nodes if n.kind == "stmt" and isinstance(n.ast, ast.Return)}
+    visited_nodes = set()
+
+    def transfer(nid, succ, lab, st):
+        n = cfg.nodes[nid]
+        if st == "init":
+            return pack({G: g0}, zero, None) if nid == S.id else None
+        if nid in stops:
+            return None
+        visited_nodes.add(nid)
+        env, dT, early = unpack(st)
+        if nid in early_tests and lab in (True, False):
+            early = (lab == early_tests[nid])
+        s = n.ast
+        if n.kind == "stmt" and isinstance(s, (ast.Assign, ast.AugAssign)):
+            tg = s.targets[0] if isinstance(s, ast.Assign) else s.target
+            tgs = s.targets if isinstance(s, ast.Assign) else [s.target]
+            if any(is_T(t) for t in tgs) or any(isinstance(t, ast.Name) and t.id in rel for t in tgs):
+                pe = sympath.PathEval(nf, cfg, mi, qual, env)
+                v = pe.ev(s.value)
+                if is_T(tg):
+                    if not (isinstance(s, ast.AugAssign) and isinstance(s.op, (ast.Add, ast.Sub))):
+                        raise AnalysisError(f"{site}: per-task totals are overwritten (`{short(s, 60)}`): accounting idiom not recognised")
+                    dT = dT + v if isinstance(s.op, ast.Add) else dT - v
+                else:
+                    if isinstance(s, ast.AugAssign):
+                        cur = env.get(tg.id, Poly.atom(tg.id, {tg.id}, {tg.id}))
+                        v = nf._binop_polys(cur, v, s.op)
+                    env = dict(env)
+                    env[tg.id] = v
+            elif any(isinstance(t, (ast.Tuple, ast.List)) and any(isinstance(e, ast.Name) and e.id in rel for e in t.elts) for t in tgs):
+                raise AnalysisError(f"{site}: `{short(s, 60)}` rebinds a step counter by unpacking: accounting idiom not recognised")
+        return pack(env, dT, early)
+
+    parent, problems = explore(cfg, "init", transfer, start=S.id, max_states=20000)
+    pe0 = sympath.PathEval(nf, cfg, mi, qual, {})
+    Q = pe0.ev(parse_expr("sum(env_with_stats.length_queue)"))
+    ends = {}
+    for key in parent:
+        nid, st = key
+        if st == "init" or nid not in stops:
+            continue
+        ends.setdefault((nid, st), key)
+    ck.need(ends, f"{site}: no segment end reached from the train_st call")
+    ck.count("R5-segment-states", len(parent))
+    seen = set()
+    for (nid, st), key in sorted(ends.items(), key=lambda kv: (kv[0][0], str(kv[0][1]))):
+        env, dT, early = unpack(st)
+        node = cfg.nodes[nid]
+        kind = "next-call" if nid == S.id else "loop-header" if nid == H.id else "return"
+        gend = env.get(G, g0)
+        path = [k[0] for k in path_to(parent, key)]
+        if early is None:
+            sig = (kind, "unclassified")
+            if sig not in seen:
+                seen.add(sig)
+                ck.ob("R5-scheduler", site, f"budget-exact:{kind}:classified", False, "a path from the single-task call to the next scheduling decision bypasses the early-termination test",
+                      "the per-task totals cannot account for a call that ran into the budget on this path", loc(mi, node.ast) if node.ast is not None else loc(mi, fn), _compress(cfg, path))
+            continue
+        if not early:
+            okg = (gend - g0 - Q).is_zero()
+            okt = (dT - Q).is_zero()
+            sig = (kind, "normal", (gend - g0).canon(), dT.canon())
+            if sig in seen:
+                continue
+            seen.add(sig)
+            ck.ob("R5-scheduler", site, f"budget-exact:{kind}:normal", okg and okt, f"dG = {(gend - g0).canon() or '0'}, dT = {dT.canon() or '0'} (Q = {Q.canon()})",
+                  "" if okg and okt else f"after a call that finished its episodes the global counter and the per-task total must both advance by the recorded episode lengths Q = {Q.canon()}",
+                  loc(mi, node.ast) if node.ast is not None else loc(mi, fn), None if okg and okt else _compress(cfg, path))
+        else:
+            okt = (g0 + dT - B).is_zero()
+            ret_uses_g = node.kind == "stmt" and isinstance(node.ast, ast.Return) and node.ast.value is not None and any(isinstance(x, ast.Name) and x.id == G for x in ast.walk(node.ast.value))
+            needs_g = kind in ("next-call", "loop-header") or ret_uses_g
+            okg = (gend - B).is_zero() or not needs_g
+            sig = (kind, "early", gend.canon(), dT.canon())
+            if sig in seen:
+                continue
+            seen.add(sig)
+            ck.ob("R5-scheduler", site, f"budget-exact:{kind}:early", okg and okt, f"G = {gend.canon()}, G0 + dT = {(g0 + dT).canon()} (budget {budget})",
+                  "" if okg and okt else (f"a call that ran into the budget executed {budget} - G0 steps: the per-task totals must grow by exactly that (G0 + dT == {budget})" if not okt else f"after the budget is exhausted the global counter must equal {budget} (it is {gend.canon()}): the scheduler would overrun or report a wrong count"),
+                  loc(mi, node.ast) if node.ast is not None else loc(mi, fn), None if okg and okt else _compress(cfg, path))
+    # every write of the counters inside the scheduler loop lies on an analysed segment
+    body = cfg.loop_body_nodes(H.id)
+    for n in stmts:
+        if n.id not in body:
+            continue
+        tg = n.ast.targets[0] if isinstance(n.ast, ast.Assign) else n.ast.target
+        if (isinstance(tg, ast.Name) and tg.id == G) or is_T(tg):
+            ok = n.id in visited_nodes
+            ck.ob("R5-scheduler", site, f"budget-exact:write-on-segment:{short(n.ast, 40)}", ok, f"`{short(n.ast, 60)}` follows the single-task call", "" if ok else "a counter is modified before the single-task call of its iteration: not covered by the executed-steps accounting", loc(mi, n.ast))
+
+
 def _stable(txt):
     """Finding keys must not contain CFG node numbers (φ atoms carry them)."""
     import re
@@ -661,6 +811,8 @@ def run(ck, repo: Repo, tier: str):
     r5_ducb(ck, repo, nf)
     for q, b in MT_LOOPS.items():
         r5_budget_symbolic(ck, repo, nf, q, b)
+        if not q.endswith("train_uts"):
+            r5_budget_exact(ck, repo, nf, q, b)
 
 
 # ---- self-validation variants (thorough tier) ------------------------------------------------------------
@@ -689,6 +841,10 @@ MUTANTS = [
     {"id": "c11-ducb-init-rounds", "file": "rl_blox/blox/mapb.py", "rule": "R5", "find": "        if len(self.rewards) < 2 * self.n_arms:", "replace": "        if len(self.rewards) < self.n_arms - 1:"},
     {"id": "c11-ducb-minus-padding", "file": "rl_blox/blox/mapb.py", "rule": "R5", "find": "            ducb = mean + padding", "replace": "            ducb = mean - padding"},
     {"id": "c11-ducb-argmin", "file": "rl_blox/blox/mapb.py", "rule": "R5", "find": "            arm_idx = np.argmax(ducb)", "replace": "            arm_idx = np.argmin(ducb)"},
+    {"id": "c11-smt-early-overshoot", "file": _A + "smt.py", "rule": "R5", "nth": 0, "find": "            steps = sum(env_with_stats.length_queue)\n            training_steps[task_id] += steps\n            global_step += steps\n            progress.update(steps)\n\n            if len(env_with_stats.return_queue) != scheduling_interval:\n                # early termination because we reached step limit\n                unlogged_steps = b1 - global_step\n                global_step = b1\n                training_steps[task_id] += unlogged_steps\n                progress.update(unlogged_steps)\n",
+     "replace": "            steps = sum(env_with_stats.length_queue)\n            if len(env_with_stats.return_queue) != scheduling_interval:\n                steps += b1 - global_step\n            training_steps[task_id] += steps\n            global_step += steps\n            progress.update(steps)\n"},
+    {"id": "c11-amt-early-counts-from-zero", "file": _A + "active_mt.py", "rule": "R5", "find": "            unlogged_steps = total_timesteps - global_step\n", "replace": "            unlogged_steps = total_timesteps - sum(env_with_stats.length_queue)\n"},
+    {"id": "c11-smt2-early-keeps-counter", "file": _A + "smt.py", "rule": "R5", "find": "                unlogged_steps = b_total - global_step\n                global_step = b_total\n", "replace": "                unlogged_steps = b_total - global_step\n"},
     {"id": "c11-smt-double-count", "file": _A + "smt.py", "rule": "R5", "nth": 0, "find": "                unlogged_steps = b1 - global_step\n                global_step = b1\n", "replace": "                global_step = b1\n                unlogged_steps = b1 - global_step\n"},
     {"id": "c11-smt-missing-task-steps", "file": _A + "smt.py", "rule": "R5", "find": "            steps = sum(env_with_stats.length_queue)\n            training_steps[task_id] += steps\n            global_step += steps\n            progress.update(steps)\n\n            if len(env_with_stats.return_queue) != scheduling_interval:\n                # early termination because we reached step limit\n                unlogged_steps = b_total - global_step",
      "replace": "            steps = sum(env_with_stats.length_queue)\n            global_step += steps\n            progress.update(steps)\n\n            if len(env_with_stats.return_queue) != scheduling_interval:\n                # early termination because we reached step limit\n                unlogged_steps = b_total - global_step"},
@@ -706,5 +862,7 @@ BENIGN = [
     {"id": "c11-b-sac-done-var", "file": _A + "sac.py", "find": "        if termination or truncation:\n            if logger is not None:\n                logger.record_stat(\"return\"", "replace": "        done = termination or truncation\n        if done:\n            if logger is not None:\n                logger.record_stat(\"return\""},
     {"id": "c11-b-ddpg-gate-extra", "file": _A + "ddpg.py", "find": "        if global_step >= learning_starts:\n            for _ in range(gradient_steps):", "replace": "        if global_step >= learning_starts and len(replay_buffer) >= batch_size:\n            for _ in range(gradient_steps):"},
     {"id": "c11-b-rollout-done-var", "file": "rl_blox/util/experiment_helper.py", "find": "    while not (terminated or truncated):", "replace": "    while not terminated and not truncated:"},
+    {"id": "c11-b-smt-early-one-shot", "file": _A + "smt.py", "nth": 0, "find": "            steps = sum(env_with_stats.length_queue)\n            training_steps[task_id] += steps\n            global_step += steps\n            progress.update(steps)\n\n            if len(env_with_stats.return_queue) != scheduling_interval:\n                # early termination because we reached step limit\n                unlogged_steps = b1 - global_step\n                global_step = b1\n                training_steps[task_id] += unlogged_steps\n                progress.update(unlogged_steps)\n",
+     "replace": "            steps = sum(env_with_stats.length_queue)\n            if len(env_with_stats.return_queue) != scheduling_interval:\n                steps = b1 - global_step\n            training_steps[task_id] += steps\n            global_step += steps\n            progress.update(steps)\n"},
     {"id": "c11-b-smt-steps-local", "file": _A + "smt.py", "nth": 0, "find": "            steps = sum(env_with_stats.length_queue)\n            training_steps[task_id] += steps\n            global_step += steps\n", "replace": "            steps = sum(env_with_stats.length_queue)\n            global_step += steps\n            training_steps[task_id] += steps\n"},
 ]
